@@ -29,3 +29,18 @@ M("c01-seek-bytes-not-samples", "C01", R, "                self._file.seek(int(s
 M("c01-unsliced-buffer", "C01", R, "                memoryview(read_buffer)[:expected_nbytes],", "                memoryview(read_buffer),",
   "the original F01a defect")
 M("c01-yield-full-buffer", "C01", R, "            yield block // self.header.nchans, ii, data[:block]", "            yield block // self.header.nchans, ii, data")
+
+# ---- C02
+M("c02-seek-third-file", "C02", F, "            file_offset = offset - self.sinfo.cumsum_datalens[fileid - 1]", "            file_offset = offset - self.sinfo.cumsum_datalens[0]",
+  "absolute seek into the third file lands at the wrong offset (note: '<' -> '<=' in the file lookup is an equivalent mutant: EOF of file i and start of file i+1 read identically)")
+M("c02-seek2hdr-zero", "C02", F, "        self.file_obj.seek(self.sinfo.entries[ifile].hdrlen)", "        self.file_obj.seek(self.sinfo.entries[0].hdrlen)",
+  "header length of file 0 used for every file: leaks header bytes when lengths differ")
+M("c02-pos-cumsum", "C02", F, "        return self.cur_data_pos_file + self.sinfo.cumsum_datalens[self.ifile_cur - 1]", "        return self.cur_data_pos_file + self.sinfo.cumsum_datalens[self.ifile_cur] - self.sinfo.entries[self.ifile_cur].datalen + (1 if self.ifile_cur == 2 else 0)",
+  "position off by one only in the third file")
+M("c02-readinto-stops-at-file-end", "C02", F, "            if nbytes == len(read_buffer_view) or self.eos():", "            if nbytes == len(read_buffer_view) or self.eos() or (nbytes_read == 0 and nbytes > 0):",
+  "buffer read gives up at an empty middle file")
+M("c02-read_block-range", "C02", R, "        if start < 0 or start + nsamps > self.header.nsamples:\n            msg = f\"requested block is out of range: start={start}, nsamps={nsamps}\"\n            raise ValueError(msg)\n\n        self._file.seek(start * self.samp_stride)\n        data = self._file.cread(",
+  "        if start < 0 or start + nsamps >= self.header.nsamples + (start == 0):\n            msg = f\"requested block is out of range: start={start}, nsamps={nsamps}\"\n            raise ValueError(msg)\n\n        self._file.seek(start * self.samp_stride)\n        data = self._file.cread(",
+  "read_block rejects requests ending at the last sample unless start==0")
+M("c02-cread-count", "C02", F, "            count_read = min(self.sinfo.entries[self.ifile_cur].datalen, count)", "            count_read = min(self.sinfo.entries[self.ifile_cur].datalen // self.bitsinfo.itemsize, count, 7)",
+  "cread never reads more than 7 items from one file in one go, then jumps to the next file")
